@@ -64,13 +64,12 @@ def dot {n : Nat} (a b : Vec n) : Rat := fsum fun i => a i * b i
 
 def matVec {n : Nat} (M : Mat n) (v : Vec n) : Vec n := fun i => fsum fun j => M i j * v j
 
-/-- evaluate a vector once (the closure is replaced by a table); `memo v = v` -/
-def memo {n : Nat} (v : Vec n) : Vec n :=
-  let a := Array.ofFn v
-  fun i => a[i.val]'(by simp [a])
+/-- read a materialised vector -/
+def vget {n : Nat} (a : Vector Rat n) : Vec n := fun i => a[i.val]'(i.isLt)
 
-theorem memo_eq {n : Nat} (v : Vec n) : memo v = v := by
-  funext i; simp [memo]
+/-- `vget (Vector.ofFn v)` evaluates `v` once (the closure is replaced by a table); it is `v` -/
+theorem vget_ofFn {n : Nat} (v : Vec n) : vget (Vector.ofFn v) = v := by
+  funext i; simp [vget]
 
 /-- natural power by repeated multiplication -/
 def rpow (x : Rat) : Nat → Rat
@@ -427,7 +426,7 @@ def lmLoop (c : LmCfg) : Nat → List (Vec c.n) → Vec c.n → Vec c.n
   | j, mj :: rest, d =>
     let s := dot mj d
     let cd := lmCd c j
-    lmLoop c (j + 1) rest (memo fun i => (1 - cd) * d i + cd * mj i * s)
+    lmLoop c (j + 1) rest (vget (Vector.ofFn fun i => (1 - cd) * d i + cd * mj i * s))
 
 /-- `mean + σ·d(z)` with `itrs = min(current_gens, n_vectors)` -/
 def lmTransform (c : LmCfg) (st : LmState c.n) (z : Vec c.n) : Vec c.n :=
@@ -577,9 +576,10 @@ def openaiTell {n : Nat} (c : OpenaiCfg) (st : AdamState n) (noise : List (Vec n
   match openaiGradient c noise perm with
   | .error e => .error e
   | .ok g =>
-    match adamStepChecked c.adam st (memo g) sB2 sV with
+    let g' := vget (Vector.ofFn g)
+    match adamStepChecked c.adam st g' sB2 sV with
     | .error e => .error e
-    | .ok (st', d) => .ok (memo g, st', d)
+    | .ok (st', d) => .ok (g', st', d)
 
 /-- `theta + σ₀·noise` -/
 def openaiTransform {n : Nat} (theta : Vec n) (sigma0 : Rat) (z : Vec n) : Vec n :=
@@ -613,7 +613,7 @@ def roundStep {n : Nat} (tf : Vec n → Vec n) (inB : Vec n → Bool) (r : Nat) 
     Nat → List (Nat × Vec n) → Rows n → Rows n × List Nat
   | _, [], rows => (rows, [])
   | k, (i, d) :: t, rows =>
-    let x := memo (tf d)
+    let x := vget (Vector.ofFn (tf d))
     let res := roundStep tf inB r (k + 1) t (rows.set i x d (r, k))
     (res.1, if inB x then res.2 else i :: res.2)
 
